@@ -1,6 +1,7 @@
 pub mod exec;
 pub mod grammar;
 pub mod model;
+pub mod naive;
 pub mod pb;
 
 pub use exec::{compare, node_id, op_diff, op_multiset, run_named, Config, TVal, Tol};
